@@ -110,7 +110,12 @@ add('C17', 'proof', 'Lean 4 theorems about an inverse-CDF stream model + bit-exa
     'consumption across steps and runs — 22 Lean theorems for all n, distributions and streams. Tied to the code by '
     'predicting bit-for-bit every error generated by every IID model (n = 4..400) and every flip pattern received by a '
     'recording FTP decoder from a twin numpy generator; numpy choice = searchsorted on the normalised cumsum is re-checked '
-    'on every run. Uniformity/independence of PCG64 is trusted; a chi-square test is reported as supporting test only.',
+    'on every run. The distributional clauses themselves are theorems too (Props/C17/Measure.lean, Lebesgue measure on '
+    '[0,1)^n): IF the consumed uniforms are i.i.d. uniform THEN each qubit suffers I/X/Y/Z with exactly the model\'s '
+    'probabilities, qubits are independent (product law, equality of measures), each syndrome bit flips with probability q '
+    'independently, and a whole FTP step / run has the product law — also on the actual 2^-53 grid (error < 2^-53 per '
+    'letter) — 69 theorems in total. Uniformity/independence of PCG64 is trusted; a chi-square test and an exact binomial '
+    'test at extreme q are reported as supporting tests only.',
     TB + 'numpy Generator.choice consumption contract re-validated each run; PCG64 statistical quality trusted.')
 add('C12', 'proof', 'Lean 4 theorems: shape/control-flow model of the sweeps (singular values as oracle input) + the algebraic contracts over R with the QR/SVD factorisation as hypothesis; exact shape correspondence and numeric contract monitors',
     'Shape model (all lengths, dimensions, oracle lists): contiguity errors, QR-vs-SVD choice by mask, kept rank <= chi and '
@@ -119,7 +124,8 @@ add('C12', 'proof', 'Lean 4 theorems: shape/control-flow model of the sweeps (si
     'the reals with each factorisation (M = QR, QtQ = 1; M = U diag(s) W, UtU = 1, WWt = 1) as an explicit hypothesis = the '
     'LAPACK oracle contract: a sweep preserves the represented tensor up to the accumulated norm, all sites but the centre '
     'are isometries, the normalised result has unit norm, and for a truncating sweep the squared distance equals the '
-    'accumulated discarded weight (an equality, so the bound of the property holds) — 22 theorems. That LAPACK meets its '
+    'accumulated discarded weight (an equality, so the bound of the property holds); the shape model is proved to be the '
+    'shadow of the algebraic sweep relation (Props/C12/Link.lean) — 34 theorems. That LAPACK meets its '
     'contract in floating point is NOT a theorem: isometry, preservation, unit norm, error <= discarded weight and '
     'NaN-freedom are evaluated with tolerances on the real outputs of every generated case (evidence: explored).',
     TB + 'scipy/LAPACK QR and SVD are oracles (recorded by wrapping them from the harness); the link between the shape '
@@ -225,14 +231,14 @@ add('C02', 'proof', 'Lean 4 theorems: recovery reproduces the syndrome for EVERY
     '6.6.6 tensor-network decoders and any product with logicals; the planar Y decoder for ALL R, C >= 2 and every Y-only '
     'error (snake fills, destabilisers incl. the co-prime billiard lemma, residual look-up table sound and total, '
     'Y-stabilizers = the 2^(gcd-1) Y-only centraliser elements, decode never raises); for the SMWPM decoders also EXISTENCE of '
-    'perfect matchings at finite bias (so decoding never fails given a maximum-cardinality matching); the naive decoder (sound, complete, guard); the monitor recoveryOk decides the property for all '
-    'errors with that syndrome at once. C15/C07 interface hypotheses are discharged (Props/C02/Instances.lean) — 92 theorems. '
+    'perfect matchings at finite bias, at infinite bias for Y-only noise and at p = 0 (so decoding never fails given a maximum-cardinality matching); the naive decoder (sound, complete, guard); the monitor recoveryOk decides the property for all '
+    'errors with that syndrome at once. C15/C07 interface hypotheses are discharged (Props/C02/Instances.lean) — 119 theorems. '
     'Tie: exact comparison of sample_recovery, recorded gt.mwpm graphs / matchings / clusters / stage recoveries / final '
     'recovery given the recorded matchings, the Y decoder\'s cached operators and residual table; and every registry decoder run '
     'on real syndromes (all syndromes of the smallest codes, every weight on larger ones, all parameterisations and context '
     'models) judged by the verified monitor in Python and in Lean. PlanarCMWPMDecoder(max_iterations=0) is a known finding.',
-    TB + 'networkx matching is a parameter (any perfect matching); edge weights are not modelled (irrelevant to C02); '
-    'SMWPM matching existence at infinite bias (Y-only noise) is stated, not proved.')
+    TB + 'networkx matching is a parameter (any perfect matching / any maximum-cardinality matching); edge weights are not '
+    'modelled (irrelevant to C02).')
 add('C03', 'proof', 'Lean 4 theorems: for every size, T, step errors and measurement flips, the modelled FTP decoders return a recovery with the syndrome of the total error for ANY perfect matchings; reachable-input characterisation; time-parity / result-constructor logic; exhaustive small-domain exploration of the real decoders',
     'Proved: ftp_rotated_planar_returns_to_codespace and ftp_rotated_toric_returns_to_codespace — for all sizes, all T >= 1, all '
     'step-error sequences and all periodic measurement-flip patterns, whatever perfect matchings gt.mwpm returns for the '
